@@ -348,6 +348,7 @@ def r3_split_walk(ctx):
     # relative path: join of the parts reversed exactly once
     revs = 0
     joined = False
+    head_elt = None
     cur = rel
     hops = 0
     node = rn
@@ -374,6 +375,11 @@ def r3_split_walk(ctx):
                 revs += 1
             cur = cur.args[0]
             continue
+        if isinstance(cur, ast.BinOp) and isinstance(cur.op, ast.Add) and isinstance(cur.left, ast.List) and len(cur.left.elts) == 1 and is_name(cur.right, parts):
+            # [file name] + <names recorded by the walk>: the same list, its first element given here
+            head_elt = (node, cur.left.elts[0])
+            cur = cur.right
+            continue
         break
     uses_insert0 = any(_callee(c) == 'insert' and c.args and isinstance(c.args[0], ast.Constant) and c.args[0].value == 0 for (_, c) in appends)
     order_ok = joined and ((revs == 1 and not uses_insert0) or (revs == 0 and uses_insert0)) and isinstance(cur, (ast.Name, ast.List))
@@ -384,7 +390,10 @@ def r3_split_walk(ctx):
     if parts is not None:
         ldefs = [d for d in rd.defs_of(parts) if d.kind == 'assign']
         ok_l = len(ldefs) == 1 and isinstance(ldefs[0].value, ast.List) and len(ldefs[0].value.elts) == 1 and isinstance(ldefs[0].value.elts[0], ast.Name)
-        if ok_l:
+        if not ok_l and head_elt is not None and len(ldefs) == 1 and isinstance(ldefs[0].value, ast.List) and not ldefs[0].value.elts and isinstance(head_elt[1], ast.Name):
+            o = _origins(rd, head_elt[0], head_elt[1])
+            ok_l = any(_component(x, 1, 'split') is not None for x in o) or any(_is_call_to(x, 'basename') for x in o)
+        elif ok_l:
             o = _origins(rd, ldefs[0].node, ldefs[0].value.elts[0])
             ok_l = any(_component(x, 1, 'split') is not None for x in o) or any(_is_call_to(x, 'basename') for x in o)
         rep.ob('C17.R3', ctx.loc(f, ldefs[0].node.ast if ldefs else f.node), 'the list of names starts with the module file name', ok_l,
